@@ -222,7 +222,31 @@ Section Universe.
     - exact I.
   Qed.
 
+  Theorem rt_registered m k :
+    kind_of U m = Some k -> ty_msg m -> valid_msg m ->
+    exists b, enc_body m = MOk b /\
+      forall rest fuel, (length (b ++ rest) < fuel)%nat -> drun (dec_body fuel k) (b ++ rest) = MOk (m, rest).
+  Proof. intros Hk Ht Hv. pose proof (rt_Q m Ht Hv) as H. unfold Q in H. rewrite Hk in H. exact H. Qed.
+
+  (** SerializeRemotingMessage / DeserializeRemotingMessage as the entry points use them *)
+  Theorem rt_deserialize m k :
+    kind_of U m = Some k -> ty_msg m -> valid_msg m ->
+    exists b, enc_body m = MOk b /\
+      forall rest, drun (deserialize_remoting U has_codec cdec qerr newref k) (b ++ rest) = MOk (m, rest).
+  Proof.
+    intros Hk Ht Hv. destruct (rt_registered m k Hk Ht Hv) as (b & Hb & Hd). exists b. split; [exact Hb|].
+    intros rest. unfold deserialize_remoting. apply Hd. lia.
+  Qed.
+
   (** WriteMessage / ReadMessage round trip for every valid message, registered or not *)
   Theorem rt_W m : ty_msg m -> valid_msg m -> fits U has_codec cenc m -> W m.
   Proof. intros Ht Hv Hf. apply Q_W; [exact Hv|exact Hf|]. apply rt_Q; assumption. Qed.
+  Theorem rt_read_message m :
+    ty_msg m -> valid_msg m -> fits U has_codec cenc m ->
+    exists w, write_message m = MOk w /\
+      forall rest, drun (read_message U has_codec cdec qerr newref) (w ++ rest) = MOk (m, rest).
+  Proof.
+    intros Ht Hv Hf. destruct (rt_W m Ht Hv Hf) as (w & Hw & _ & Hr). exists w. split; [exact Hw|].
+    intros rest. unfold read_message. apply Hr. rewrite app_length. lia.
+  Qed.
 End Universe.
